@@ -1,19 +1,231 @@
 package main
 
+// gosym: bounded symbolic execution of Go SSA with an SMT solver.
+//
+//   gosym -job job.json -out result.json
+//
+// job.json: {"dir": "/verif/harness", "patterns": ["./c07"], "overlay": {"/repo/x/zz.go": "/verif/inpkg/x.go"},
+//            "jobs": [{"harness": "vh/c07.HexRoundTrip", "params": {"n": 3}, "cfg": {"MaxFork": 64}}]}
+
 import (
+	"encoding/json"
+	"flag"
 	"fmt"
-	"golang.org/x/tools/go/packages"
+	"os"
+	"sort"
+	"strings"
+	"time"
+
 	"golang.org/x/tools/go/ssa"
-	"golang.org/x/tools/go/ssa/ssautil"
 )
 
+type JobFile struct {
+	Dir      string            `json:"dir"`
+	Patterns []string          `json:"patterns"`
+	Overlay  map[string]string `json:"overlay"`
+	Jobs     []Job             `json:"jobs"`
+}
+
+type Job struct {
+	Harness string           `json:"harness"`
+	Params  map[string]int64 `json:"params"`
+	Cfg     map[string]int64 `json:"cfg"`
+	MapOrder string          `json:"map_order"`
+	Label   string           `json:"label"`
+}
+
+type JobResult struct {
+	Harness    string                   `json:"harness"`
+	Label      string                   `json:"label"`
+	Params     map[string]int64         `json:"params"`
+	Paths      int64                    `json:"paths"`
+	PathsOK    int64                    `json:"paths_completed"`
+	PathsAssume int64                   `json:"paths_ended_by_assume"`
+	Aborts     map[string]int           `json:"aborts"`
+	EngineErrs []string                 `json:"engine_errors"`
+	Violations []*Violation             `json:"violations"`
+	Covers     map[string]int           `json:"covers"`
+	Decisions  int64                    `json:"decisions"`
+	Instrs     int64                    `json:"instructions"`
+	Asserts    int64                    `json:"assertions_reached"`
+	AssertsSym int64                    `json:"assertions_symbolic"`
+	Queries    int64                    `json:"queries"`
+	QSat       int64                    `json:"queries_sat"`
+	QUnsat     int64                    `json:"queries_unsat"`
+	QUnknown   int64                    `json:"queries_unknown"`
+	Fallbacks  int64                    `json:"fallback_queries"`
+	SolverS    float64                  `json:"solver_s"`
+	WallS      float64                  `json:"wall_s"`
+	InitS      float64                  `json:"init_s"`
+	ModelS     float64                  `json:"model_fetch_s"`
+	Funcs      []string                 `json:"functions_encoded"`
+	Stubs      []string                 `json:"stubs_used"`
+	Opaque     []string                 `json:"bodyless_calls"`
+	Samples    []map[string]interface{} `json:"samples"`
+	Witnesses  []*Witness               `json:"witnesses"`
+	MaxDepth   int                      `json:"max_decisions_on_a_path"`
+	Error      string                   `json:"error,omitempty"`
+	Cfg        map[string]interface{}   `json:"cfg"`
+}
+
 func main() {
-	cfg := &packages.Config{Mode: packages.LoadAllSyntax, Dir: "/repo"}
-	pkgs, err := packages.Load(cfg, "./strz")
-	if err != nil {
-		panic(err)
+	jobPath := flag.String("job", "", "job file")
+	outPath := flag.String("out", "", "result file")
+	verbose := flag.Bool("v", false, "verbose")
+	flag.Parse()
+	if *jobPath == "" {
+		fmt.Fprintln(os.Stderr, "usage: gosym -job job.json -out result.json")
+		os.Exit(2)
 	}
-	prog, _ := ssautil.AllPackages(pkgs, ssa.InstantiateGenerics)
-	prog.Build()
-	fmt.Println(len(ssautil.AllFunctions(prog)))
+	data, err := os.ReadFile(*jobPath)
+	if err != nil {
+		fatal(err)
+	}
+	var jf JobFile
+	if err := json.Unmarshal(data, &jf); err != nil {
+		fatal(err)
+	}
+	overlay := map[string][]byte{}
+	for virt, real := range jf.Overlay {
+		b, err := os.ReadFile(real)
+		if err != nil {
+			fatal(err)
+		}
+		overlay[virt] = b
+	}
+	t0 := time.Now()
+	prog, pkgs, err := loadProgram(jf.Dir, jf.Patterns, overlay)
+	if err != nil {
+		fatal(err)
+	}
+	loadS := time.Since(t0).Seconds()
+	if *verbose {
+		fmt.Fprintf(os.Stderr, "loaded in %.1fs\n", loadS)
+	}
+	var results []*JobResult
+	for _, job := range jf.Jobs {
+		res := runJob(prog, job, *verbose)
+		results = append(results, res)
+		if *verbose {
+			fmt.Fprintf(os.Stderr, "%s %s: paths=%d ok=%d viol=%d aborts=%v wall=%.1fs queries=%d\n", job.Harness, job.Label, res.Paths, res.PathsOK, len(res.Violations), res.Aborts, res.WallS, res.Queries)
+		}
+	}
+	_ = pkgs
+	out := map[string]interface{}{"load_s": loadS, "results": results}
+	b, _ := json.MarshalIndent(out, "", " ")
+	if *outPath != "" {
+		if err := os.WriteFile(*outPath, b, 0644); err != nil {
+			fatal(err)
+		}
+	} else {
+		os.Stdout.Write(b)
+	}
+}
+
+func fatal(err error) {
+	fmt.Fprintln(os.Stderr, "gosym:", err)
+	os.Exit(2)
+}
+
+func runJob(prog *ssa.Program, job Job, verbose bool) *JobResult {
+	res := &JobResult{Harness: job.Harness, Label: job.Label, Params: job.Params}
+	cfg := defaultConfig()
+	for k, v := range job.Params {
+		cfg.Params[k] = v
+	}
+	for k, v := range job.Cfg {
+		switch k {
+		case "MaxInstr":
+			cfg.MaxInstr = v
+		case "MaxDecisions":
+			cfg.MaxDecisions = int(v)
+		case "MaxFork":
+			cfg.MaxFork = int(v)
+		case "MaxSymIndex":
+			cfg.MaxSymIndex = int(v)
+		case "MaxPaths":
+			cfg.MaxPaths = v
+		case "Preempt":
+			cfg.Preempt = int(v)
+		case "Race":
+			cfg.Race = v != 0
+		case "Workers":
+			cfg.Workers = int(v)
+		case "QueryTimeoutMs":
+			cfg.QueryTimeoutMs = int(v)
+		case "MaxGoroutines":
+			cfg.MaxGoroutines = int(v)
+		case "MaxSchedSteps":
+			cfg.MaxSchedSteps = int(v)
+		case "StopAtFirst":
+			cfg.StopAtFirst = v != 0
+		case "MaxViolations":
+			cfg.MaxViolations = int(v)
+		case "MaxAlloc":
+			cfg.MaxAlloc = int(v)
+		case "MaxDepth":
+			cfg.MaxDepth = int(v)
+		default:
+			res.Error = "unknown cfg key " + k
+			return res
+		}
+	}
+	if job.MapOrder != "" {
+		cfg.MapOrder = job.MapOrder
+	}
+	res.Cfg = map[string]interface{}{"MaxInstr": cfg.MaxInstr, "MaxDecisions": cfg.MaxDecisions, "MaxFork": cfg.MaxFork, "Preempt": cfg.Preempt, "MapOrder": cfg.MapOrder, "Workers": cfg.Workers, "QueryTimeoutMs": cfg.QueryTimeoutMs}
+	i := strings.LastIndex(job.Harness, ".")
+	if i < 0 {
+		res.Error = "harness must be pkgpath.Func"
+		return res
+	}
+	pkgPath, fname := job.Harness[:i], job.Harness[i+1:]
+	pkg := prog.ImportedPackage(pkgPath)
+	if pkg == nil {
+		res.Error = "package not loaded: " + pkgPath
+		return res
+	}
+	fn := pkg.Func(fname)
+	if fn == nil {
+		res.Error = "no function " + fname + " in " + pkgPath
+		return res
+	}
+	ex := &Explorer{cfg: cfg, prog: prog, harnessPkg: pkg, harnessFn: fn, harnessName: job.Harness,
+		aborts: map[string]int{}, violSigs: map[string]bool{}, funcs: map[string]bool{}, opaque: map[string]bool{}, stubs: map[string]bool{},
+		covers: map[string]int{}, methodCache: map[string]*ssa.Function{}, implCache: map[string]bool{}, initAllow: map[string]bool{}}
+	for _, p := range defaultInitAllow {
+		ex.initAllow[p] = true
+	}
+	rt := prog.ImportedPackage("runtime")
+	if rt == nil {
+		res.Error = "runtime package not loaded"
+		return res
+	}
+	ex.runtimeErrT = rt.Type("errorString").Type()
+	ex.registerIntrinsics()
+	t0 := time.Now()
+	if err := ex.Explore(); err != nil {
+		res.Error = err.Error()
+	}
+	res.WallS = time.Since(t0).Seconds()
+	res.InitS = ex.initS
+	res.ModelS = ex.valDur.Seconds()
+	res.Paths, res.PathsOK, res.PathsAssume = ex.paths, ex.pathsOK, ex.pathsAssumeEnd
+	res.Aborts = ex.aborts
+	res.EngineErrs = ex.engineErrs
+	res.Violations = ex.viols
+	res.Covers = ex.covers
+	res.Decisions, res.Instrs = ex.decisions, ex.instrs
+	res.Asserts, res.AssertsSym = ex.asserts, ex.assertsSym
+	res.Queries, res.QSat, res.QUnsat, res.QUnknown = ex.totalQueries, ex.qSat, ex.qUnsat, ex.qUnknown
+	res.Fallbacks = ex.fallbacks
+	res.SolverS = ex.solverDur.Seconds()
+	res.Funcs = sortedKeys(ex.funcs)
+	res.Stubs = sortedKeys(ex.stubs)
+	res.Opaque = sortedKeys(ex.opaque)
+	res.Samples = ex.samples
+	res.Witnesses = ex.witnesses
+	res.MaxDepth = ex.maxDepthSeen
+	sort.Slice(res.Violations, func(i, j int) bool { return res.Violations[i].Msg < res.Violations[j].Msg })
+	return res
 }
